@@ -33,6 +33,8 @@ func main() {
 		cmdCalls(os.Args[2:])
 	case "sig":
 		cmdSig(os.Args[2:])
+	case "repotrace":
+		cmdRepoTrace(os.Args[2:])
 	case "rules":
 		cmdRules(os.Args[2:])
 	default:
